@@ -601,6 +601,24 @@ macro_rules! impl_8bitquant {
                 }
             }
 
+            /// Verification hook: the correction table built by `new()`.
+            #[cfg(feature = "verif-hooks")]
+            #[doc(hidden)]
+            pub fn verif_table(&self) -> &[i8] {
+                &self.table
+            }
+
+            /// Verification hook: builds the arithmetic around a given
+            /// correction table.
+            #[cfg(feature = "verif-hooks")]
+            #[doc(hidden)]
+            pub fn verif_with_table(table: Box<[i8]>) -> $ty {
+                $ty {
+                    table,
+                    _minstars: Vec::new(),
+                }
+            }
+
             fn lookup(table: &[i8], x: i8) -> i8 {
                 assert!(x >= 0);
                 table.get(x as usize).copied().unwrap_or(0)
